@@ -150,7 +150,8 @@ class Engine:
         if self.deadline and time.time() > self.deadline:
             raise Unsupported('time budget of the unit exhausted during path exploration')
         s = z3.Solver()
-        s.set('timeout', FEAS_TIMEOUT_MS)
+        # contract option feas_ms: budget of one pruning query (a time-out keeps the path, so it only costs time)
+        s.set('timeout', int(self.options.get('feas_ms') or FEAS_TIMEOUT_MS))
         s.add(*st.pc)
         if extra is not None:
             s.add(extra)
